@@ -651,7 +651,12 @@ protected:
         }
         else 
         {
-            if(m_charPredicate.isCharRefForbidden(ch))
+            // In XML 1.1, U+0085 and U+2028 are line ends, which a parser
+            // turns into a line feed, unless they are written as
+            // character references.
+            if(m_charPredicate.isCharRefForbidden(ch) ||
+               (XMLVersion == XML_VERSION_1_1 &&
+                (XalanUnicode::charLSEP == ch || ch == 0x85)))
             {
                 throwInvalidXMLCharacterException(
                     ch,
